@@ -99,7 +99,24 @@ DECOY_QUERIES = [(10, 10), (14, 14), (0, 0), (12, 12.5)]
 COND_PATHS = [[[0, 0], [7, 1]], [[3, 6], [1, 2]], [[7, 7], [5, 4]], [[2, 7], [6, 0]]]
 
 
+COND_DESC = ("Index(COND_PATHS, 8, True) - four paths - queried in nine places between "
+             "remove_path(0..3) and then in all 64 cells: ")
+
+
+class ConditioningFailed(Exception):
+    """The fixed history on the unrelated index itself went wrong (it is a valid input too)."""
+
+
 def condition():
+    try:
+        _condition()
+    except ConditioningFailed:
+        raise
+    except Exception as exc:                # pylint: disable=broad-except
+        raise ConditioningFailed(f"raised {type(exc).__name__}: {exc}") from exc
+
+
+def _condition():
     """Heavy use of an *earlier, unrelated* index, made identically before every index under
     test (exploration and replay alike): queries in every cell, all paths removed one by one,
     queries on the emptied grid.  Whatever a class remembers outside the instance (a memo of
@@ -114,7 +131,7 @@ def condition():
     for col in range(8):
         for row in range(8):
             if cond.nearest([col * 0.875 + 0.4, row * 0.875 + 0.4]) is not None:
-                raise AssertionError("conditioning index not empty")
+                raise ConditioningFailed("nearest() found an end after every path was removed")
 
 
 def _decoy_view(decoy):
@@ -132,6 +149,10 @@ def explore_index(paths, bins, reverse, queries, part):
     for order in orders:
         try:
             condition()
+        except ConditioningFailed as exc:
+            # a verdict of its own; the exploration goes on and usually finds a smaller case
+            part.violation("conditioning", COND_DESC + str(exc), {"kind": "conditioning"})
+        try:
             decoy = spatial_grid.Index([[list(a), list(b)] for a, b in DECOY_PATHS], 3, True)
             decoy_before = _decoy_view(decoy)
             index = spatial_grid.Index([[list(p[0]), list(p[1])] for p in paths], bins, reverse)
@@ -264,7 +285,11 @@ def _big_job(args):
              "stride": [(i * 7) % n_paths for i in range(n_paths)] if n_paths % 7 else
              [(i * 11) % n_paths for i in range(n_paths)]}[order_kind]
     desc = f"Index(<{n_paths} paths>, {bins}, {reverse})"
-    condition()
+    try:
+        condition()
+    except ConditioningFailed as exc:
+        part.violation("conditioning", COND_DESC + str(exc), {"kind": "conditioning"})
+        return part
     spatial_grid.Index([[list(a), list(b)] for a, b in DECOY_PATHS], 3, True)
     index = spatial_grid.Index([[list(p[0]), list(p[1])] for p in paths], bins, reverse)
     end_cells = [(ident, pt, cell_of(index, pt)) for ident, pt in ends_of(paths, reverse)]
@@ -382,12 +407,21 @@ def run(ctx):
 
 def replay(case):
     spatial_grid = _lib()
+    if case.get("kind") == "conditioning":
+        try:
+            condition()
+        except ConditioningFailed as exc:
+            return [COND_DESC + str(exc)]
+        return []
     paths = tuple((tuple(p[0]), tuple(p[1])) for p in case["paths"])
     part = core.Part()
     if case["query"] is None:
         explore_index(paths, case["bins"], case["reverse"], [], part)
         return [v["msg"] for v in part.violations]
-    condition()                                                                 # as in exploration
+    try:
+        condition()                                                             # as in exploration
+    except ConditioningFailed as exc:
+        return [COND_DESC + str(exc)]
     _decoy_view(spatial_grid.Index([[list(a), list(b)] for a, b in DECOY_PATHS], 3, True))
     index = spatial_grid.Index([[list(p[0]), list(p[1])] for p in paths], case["bins"],
                                case["reverse"])
